@@ -84,6 +84,36 @@ class Job:
         self.termination_by_unwind = termination_by_unwind
 
 
+
+# ---- extension modules (props/<Cnn>_<tag>.py: jobs(tier) + META_EXTRA) merged into a property's job list ----
+def ext_jobs(tier, modules):
+    """modules: [(module name, name filter or None)] -> jobs of the extension modules (a missing module is skipped)"""
+    import importlib
+    out = []
+    for mod, flt in modules:
+        try:
+            m = importlib.import_module(mod)
+        except ImportError:
+            continue
+        for j in m.jobs(tier):
+            if flt is None or flt(j.name):
+                out.append(j)
+    return out
+
+
+def ext_meta(meta, modules):
+    import importlib
+    for mod, _ in modules:
+        try:
+            m = importlib.import_module(mod)
+        except ImportError:
+            continue
+        ex = getattr(m, "META_EXTRA", {})
+        for k in ("trusted_base", "assumptions", "not_covered"):
+            meta.setdefault(k, [])
+            meta[k] = list(meta[k]) + [x for x in ex.get(k, []) if x not in meta[k]]
+    return meta
+
 def sh(cmd, timeout=None, cwd=None, mem_kb=None, env=None):
     """run, return (rc, stdout, stderr, secs, timed_out)"""
     t0 = time.time()
